@@ -412,6 +412,9 @@ func judge(c *Case) (f *evid.Failure, executed int, kindChanged bool, nearNonCon
 				}
 				// an array the method returned must be indistinguishable from one with the same elements built by
 				// plain assignment (no model involved)
+				if tag != 1 {
+					continue
+				}
 				if diff, err := callStr(r.checkLast); err == nil && diff != "" {
 					evid.Count("result-twin-checked")
 					return fail(i, "result-twin:"+st.Name, diff), i, kindChanged, nearNonConfig
